@@ -95,6 +95,9 @@ func fieldCases() []fieldCase {
 		{Name: "path_through_defined_pointer_type", Decls: "type PFXOwner struct {\n\tName string\n\tAddr *PFXAddr\n}\ntype PFXAddr struct{ City string }\ntype PFXOwnerRef *PFXOwner\ntype PFXIn struct {\n\tOwner PFXOwnerRef\n\tN int\n}\ntype PFXOut struct {\n\tName *string\n\tCity *string\n\tN int\n}\n", Src: "PFXIn", Tgt: "PFXOut",
 			Lines: []string{"map Owner.Name Name", "map Owner.Addr.City City"},
 			Pairs: map[string]*PairSpec{"PFXIn→PFXOut": {Fields: map[string]*FieldSpec{"Name": fs("Owner", "Name"), "City": fs("Owner", "Addr", "City")}}}},
+		{Name: "automap_path_with_pointer_hop_in_the_middle", Decls: "type PFXAddr struct{ City string }\ntype PFXNested struct{ Address PFXAddr }\ntype PFXIn struct {\n\tNested *PFXNested\n\tN int\n}\ntype PFXOut struct {\n\tCity *string\n\tN int\n}\n", Src: "PFXIn", Tgt: "PFXOut",
+			Lines: []string{"autoMap Nested.Address"},
+			Pairs: map[string]*PairSpec{"PFXIn→PFXOut": {Fields: map[string]*FieldSpec{"City": fs("Nested", "Address", "City")}}}},
 		{Name: "automap_through_defined_pointer_type", Decls: "type PFXOwner struct{ Name string }\ntype PFXOwnerRef *PFXOwner\ntype PFXIn struct {\n\tOwner PFXOwnerRef\n\tN int\n}\ntype PFXOut struct {\n\tName *string\n\tN int\n}\n", Src: "PFXIn", Tgt: "PFXOut",
 			Lines: []string{"autoMap Owner"},
 			Pairs: map[string]*PairSpec{"PFXIn→PFXOut": {Fields: map[string]*FieldSpec{"Name": fs("Owner", "Name")}}}},
@@ -134,6 +137,10 @@ func fieldCases() []fieldCase {
 		{Name: "skipcopy_with_settings_identical_reference_positions", Decls: "type PFXIn struct {\n\tName string\n\tSecret string\n\tAny any\n\tC chan int\n\tL []int\n}\ntype PFXOut struct {\n\tName string\n\tSecret string\n\tAny any\n\tC chan int\n\tL []int\n}\n", Src: "PFXIn", Tgt: "PFXOut",
 			Conv: []string{"skipCopySameType"}, Lines: []string{"ignore Secret"}, SkipCopy: true,
 			Pairs: map[string]*PairSpec{"PFXIn→PFXOut": {Fields: map[string]*FieldSpec{"Secret": {Ignore: true}}}}},
+		// ... flag-style settings count as well: ignoreUnexported on Clone(T) T is not reduced to `return source`
+		{Name: "skipcopy_identical_types_flag_setting_kept", Decls: "type PFXIn struct {\n\tName string\n\tstate string\n\tL []int\n}\n", Src: "PFXIn", Tgt: "PFXIn",
+			Conv: []string{"skipCopySameType"}, Lines: []string{"ignoreUnexported"}, Formats: []string{"variable"},
+			Pairs: map[string]*PairSpec{"PFXIn→PFXIn": {IgnoreUnexported: true, Fields: map[string]*FieldSpec{"state": {Ignore: true}}}}},
 		{Name: "skipcopy_identical_pointer_types_settings_kept", Decls: "type PFXIn struct {\n\tName string\n\tSecret string\n\tL []int\n}\n", Src: "*PFXIn", Tgt: "*PFXIn",
 			Conv: []string{"skipCopySameType"}, Lines: []string{"ignore Secret"},
 			Pairs: map[string]*PairSpec{"PFXIn→PFXIn": {Fields: map[string]*FieldSpec{"Secret": {Ignore: true}}}}},
@@ -377,6 +384,8 @@ func fieldCases() []fieldCase {
 			Pairs: map[string]*PairSpec{"PFXIn→PFXOut": {IgnoreUnexported: true}}},
 		// ignoreMissing is about target fields without a source: a goverter:ignore naming a field the target does not
 		// have stays an error
+		{Name: "fail_map_unknown_target_one_name_form", Decls: "type PFXIn struct {\n\tName string\n\tAge int\n}\ntype PFXOut struct {\n\tName string\n\tAge int\n}\n", Src: "PFXIn", Tgt: "PFXOut",
+			Lines: []string{"map Nmae"}, Fail: "goverter:map FIELD (one-name form) naming a field the target does not have"},
 		{Name: "fail_ignore_unknown_field_under_ignoremissing", Decls: "type PFXIn struct {\n\tName string\n\tPasswordHash string\n}\ntype PFXOut struct {\n\tName string\n\tPasswordHash string\n\tExtra int\n}\n", Src: "PFXIn", Tgt: "PFXOut",
 			Lines: []string{"ignoreMissing", "ignore PaswordHash"}, Fail: "goverter:ignore of a field that does not exist (ignoreMissing in effect)"},
 		{Name: "fail_ignore_unknown_field_under_converter_ignoremissing", Decls: "type PFXIn struct {\n\tName string\n\tPasswordHash string\n}\ntype PFXOut struct {\n\tName string\n\tPasswordHash string\n}\n", Src: "PFXIn", Tgt: "PFXOut",
